@@ -302,6 +302,6 @@ import c16  # noqa: E402
 
 @M.rule("C03-R5", "the scope date is compared with the UTC date of the parsed instant (timestamp chain shared with C16-R3)")
 def r5(ctx):
-    for r in c16.r3(ctx):
+    for r in list(c16.r3(ctx)) + [x for x in c16.r2(ctx) if "offset" in x.key or "constructors" in x.key or x.status != "PASS"]:
         r.rule = "C03-R5"
         yield r
